@@ -7,7 +7,7 @@ namespace SaModel.Props.C18
 open SaModel SaModel.Build SaModel.Spec
 
 theorem newUnionFields_at (path : String) : ∀ (ufs : UFields) (k : Nat) (bl0 : BL) (fs : BL),
-    newUnionFields path ufs k = .ok bl0 → takeRestAll fs = takeRestAll bl0 → ∀ (cur : List Int), WFU fs cur → SafeL fs →
+    newUnionFields path ufs k = .ok bl0 → takeRestAll fs = takeRestAll bl0 → ∀ (cur : List Int), WFHU fs cur → NoDictKeyL fs →
     ShapeU fs ufs k → totalUs ufs = true → KidsU path fs ufs
   | .nil, _, bl0, fs, _, _, _, _, _, hsu, _ => by
     cases fs with
@@ -25,15 +25,15 @@ theorem newUnionFields_at (path : String) : ∀ (ufs : UFields) (k : Nat) (bl0 :
         cases h0
         simp only [takeRestAll, BL.cons.injEq] at ht
         simp only [ShapeU] at hsu
-        simp only [WFU] at hw
-        simp only [SafeL] at hs
+        simp only [WFHU] at hw
+        simp only [NoDictKeyL] at hs
         simp only [totalUs, totalF, Bool.and_eq_true] at htot
         exact ⟨⟨hw.1, hs.1, hsu.2.1, htot.1⟩, ⟨b0, hb0, ht.1⟩,
           newUnionFields_at path rest (k + 1) r0 r hr0 ht.2.2 cur.tail hw.2.2 hs.2 hsu.2.2 htot.2⟩
 
 theorem KidsU.get {path : String} : ∀ {fs : BL} {ufs : UFields} {j : Nat} {c : B} {m : FieldMeta}, KidsU path fs ufs →
     fs.get? j = some (c, m) → ∃ tid nm cdt cn cmd, ufs.toList[j]? = some (tid, .mk nm cdt cn cmd) ∧
-      Good c cdt cn cmd ∧ At (path ++ "." ++ childName nm) cdt cn cmd c
+      GoodH c cdt cn cmd ∧ At (path ++ "." ++ childName nm) cdt cn cmd c
   | .nil, _, _, _, _, _, h => by simp [BL.get?] at h
   | .cons b m r, .nil, _, _, _, hk, _ => by simp [KidsU] at hk
   | .cons b m r, .cons tid (.mk fname fdt fn fmd) rest, 0, c, m', hk, h => by
@@ -59,7 +59,7 @@ theorem KidsU.get_none {path : String} : ∀ {fs : BL} {ufs : UFields} {j : Nat}
     simpa [UFields.toList] using KidsU.get_none hk.2.2 h
 
 theorem At.union_kids {path ufs mode n md p fs types offs cur}
-    (hg : Good (.union p fs types offs cur) (.union ufs mode) n md)
+    (hg : GoodH (.union p fs types offs cur) (.union ufs mode) n md)
     (h : At path (.union ufs mode) n md (.union p fs types offs cur)) : KidsU path fs ufs := by
   obtain ⟨b0, h0, ht⟩ := h
   simp only [newDT] at h0
@@ -67,9 +67,9 @@ theorem At.union_kids {path ufs mode n md p fs types offs cur}
   cases h0
   simp only [takeRest, B.union.injEq] at ht
   have hw := hg.wf
-  simp only [WFB] at hw
-  have hs := hg.safe
-  simp only [Safe] at hs
+  simp only [WFH] at hw
+  have hs := hg.nd
+  simp only [NoDictKey] at hs
   have hsh := hg.shape
   simp only [Shape] at hsh
   obtain ⟨ufs', mode', he, hsu⟩ := hsh
@@ -82,10 +82,10 @@ theorem At.union_kids {path ufs mode n md p fs types offs cur}
 variant's child -/
 theorem union_row_bl {pc : B → R B} {p fs types offs cur} {i : Nat} {S : List String} {path : String} {ufs : UFields}
     {mode : UnionMode} {n : Bool} {md : Metadata}
-    (hg : Good (.union p fs types offs cur) (.union ufs mode) n md)
+    (hg : GoodH (.union p fs types offs cur) (.union ufs mode) n md)
     (ha : At path (.union ufs mode) n md (.union p fs types offs cur))
     (hnone : ufs.toList[i]? = none → path ∈ S)
-    (hpc : ∀ tid nm cdt cn cmd c, ufs.toList[i]? = some (tid, .mk nm cdt cn cmd) → Good c cdt cn cmd →
+    (hpc : ∀ tid nm cdt cn cmd c, ufs.toList[i]? = some (tid, .mk nm cdt cn cmd) → GoodH c cdt cn cmd →
       At (path ++ "." ++ childName nm) cdt cn cmd c → roomL fs ≤ room c → Bl S (pc c))
     (hnp : ∀ c msg, pc c ≠ .error (.err msg)) :
     Bl S (ctx (B.union p fs types offs cur).ann (do
